@@ -122,7 +122,10 @@ def findings_for(pid):
 def main():
     if len(sys.argv) >= 2 and sys.argv[1] == "--build-all":
         rc = 0
+        ready = set(open(os.path.join(VERIF, "tools", "ready.txt")).read().split())
         for pid, conf in CONF.items():
+            if pid not in ready:
+                continue
             if build(pid, conf) is None:
                 rc = 2
         sys.exit(rc)
